@@ -80,6 +80,7 @@ func genC18(r *Rng, tier string) []Case {
 		shared("sxg_headers", []Sx{cv})
 		cs = append(cs, Case{"conc_signer", []Sx{exchangeInSx(se), Zi(int64(i)), Zi(int64(n))}})
 		cs = append(cs, Case{"conc_signer", []Sx{exchangeInSx(se), Zi(int64(i)), Zi(int64(n)), Sym("alg")}})
+		cs = append(cs, Case{"conc_bsig_signer", []Sx{Sym(string(bverList()[i%2])), Zi(int64(n)), Zu(r.U64())}})
 		// bundles (b1 with variants / b2), permuted header order per exchange
 		b := randBundle(r, bverList()[i%2], 2+r.Intn(4))
 		if i%2 == 0 {
